@@ -17,7 +17,7 @@ ASSUME = [
 ]
 
 
-def run(prop, tier, seed, nontrivial_feats, rule):
+def run(prop, tier, seed, nontrivial_feats, rule, extra=None):
     v = Verdict(prop, tier, seed)
     out = poplayout_run.run(tier, seed)
     behind = 0
@@ -39,6 +39,8 @@ def run(prop, tier, seed, nontrivial_feats, rule):
         evaluations=v.counters.get('evaluations', 0), distinct_nontrivial=nt, rule=rule, exhaustive=True,
         tlc_runs=out['runs'],
         spec_negative_control='PopLayout_asfound.cfg refuted by TLC on ScatterOK (covariate wrapper around a special dimension)')
+    if extra is not None:
+        extra(v, cov)
     return v.finish('model_checking', cov, ASSUME)
 
 
